@@ -475,7 +475,7 @@ func successPathsWithoutAction(p *Prog, fn *ssa.Function, ei int, acts func(b *s
 				success = t.IsNil()
 			case *ssa.Call:
 				if o := calleeObj(t); o == nil || o.Pkg() == nil || o.Pkg().Path() != rel("qerrors") {
-					success = true
+					success = !alwaysError(t.Call.StaticCallee(), 0)
 				}
 			case *ssa.Extract:
 				success = true
@@ -2712,4 +2712,36 @@ func optionEffects(fn *ssa.Function, argConsts map[int]int64, depth int) map[str
 		scan(cl, fn, fv)
 	}
 	return out
+}
+
+// alwaysError: every return of fn hands back a freshly constructed error (qerrors.New / Propagate, or another
+// such helper): an error-message helper, never nil.
+func alwaysError(fn *ssa.Function, d int) bool {
+	if fn == nil || fn.Blocks == nil || d > 2 || fn.Signature.Results().Len() != 1 || !isErrorType(fn.Signature.Results().At(0).Type()) {
+		return false
+	}
+	all, n := true, 0
+	eachInstr(fn, func(in ssa.Instruction) {
+		ret, ok := in.(*ssa.Return)
+		if !ok {
+			return
+		}
+		n++
+		v := ret.Results[0]
+		if mi, ok := v.(*ssa.MakeInterface); ok {
+			v = mi.X
+		}
+		call, ok := v.(*ssa.Call)
+		if !ok {
+			all = false
+			return
+		}
+		if o := calleeObj(call); o != nil && o.Pkg() != nil && o.Pkg().Path() == rel("qerrors") {
+			return
+		}
+		if !alwaysError(call.Call.StaticCallee(), d+1) {
+			all = false
+		}
+	})
+	return all && n > 0
 }
